@@ -66,6 +66,19 @@ add('C08', 'E-RUN+E-SQLDRV+E-CHSQL+E-REF(logq)', 'translation_validation',
     'Trusted: E-CHSQL and the direct evaluator (Appendix A/E). Not judged (probes, counted in evidence): vector aggregation without by/without, unwrap_value, unwrap of non-numeric text, unwrap of an extracted label without by(), results that depend on whether the unwrapped label stays in the series identity, ties in topk and first/last, quantile/absent. The bucket starting exactly at the window end is ignored.',
     'runtime translation validation: generated SQL executed by a reference interpreter and real post-processors vs direct evaluation', 'DESIGN §3 C08')
 
+add('C09', 'E-RUN+E-SQLDRV+E-CHSQL+E-REF(logq)', 'exploration',
+    'Three runtime monitors on pipelines that are split between ClickHouse and the in-process engine: (1) split pipelines (json / logfmt / line_format / label_format followed by line and label filters, json with parameters, label_format, drop, line_format, unwrap, range and vector aggregation with by/without, comparison, limits 0/1/k) run through the real planner chain over E-CHSQL and compared with the direct evaluator; (2) cross-engine agreement: the same pipeline planned entirely in SQL and forced in-process by an identity line_format stage must give the same entries/values and the same meaning of limit; (3) the in-process chain built by internal_planner.Plan is fed by a scripted upstream processor delivering the reference entries in random channel batchings (1..120 entries per message, empty messages).',
+    'Trusted: E-CHSQL for the SQL half, the direct evaluator; malformed / non-object JSON lines under a parameterless json stage are probes; channel batchings are sampled, goroutine schedules are whatever the runtime produces.',
+    'runtime monitoring: differential execution of the same pipeline on both engines and against a reference evaluator, scripted upstream batching', 'DESIGN §3 C09')
+add('C10', 'E-RUN+E-SQLDRV+E-LEX', 'exploration',
+    'Every SQL string the real reader sends to the scripted database/sql driver is recorded for 134 string-valued positions (LogQL matchers, line filters, label filters, json paths, regexp, drop, templates; PromQL matchers and match[]; TraceQL attributes; Tempo tags and URL tag names; Pyroscope selectors, type ids and label names; label names in URLs) x hostile strings (quotes, backslash runs, NUL, newlines, comment markers, multi-byte and invalid UTF-8, LIKE wildcards, 64 KiB) rendered in each language\'s own quoting. Oracle: an independent ClickHouse token lexer tokenises the statement for a benign marker and for the hostile string; token kinds and all non-literal token texts must be identical, every statement must lex to completion, and each differing literal must decode (two decoders) to the position\'s documented transform of the string.',
+    'Trusted: the lexer E-LEX and its two string decoders (rule A1 and the server decoder), the per-position transform table written from the property text (identity, LIKE pattern meaning contains s, anchored regex for Prometheus/Pyroscope, composite values).',
+    'runtime monitoring: differential token-structure comparison of recorded SQL with an independent lexer', 'DESIGN §3 C10')
+add('C17', 'E-RUN+E-SQLDRV+E-CHSQL+upstream promql engine', 'exploration',
+    'Four monitors: (1) cursor model check - random Seek/Next/At sequences on model.Series iterators against a sequential model of the chunkenc.Iterator contract; (2) Prometheus matcher sets and Pyroscope selectors through the real transpilers, SQL executed by E-CHSQL over generated index tables, selected series compared with Prometheus matcher semantics; (3) CLokiQuerier.Select end to end over the scripted driver (each series once, own labels, samples in range ascending); (4) /api/v1/query_range and /api/v1/query through the real router vs the upstream promql engine over an in-memory reference storage holding the same samples.',
+    'Trusted: E-CHSQL, the Prometheus matcher evaluator (cross-checked against labels.Matcher), the pinned upstream promql engine as reference; samples exactly on a window\'s left edge are probes.',
+    'runtime monitoring: cursor model checking over recorded operation sequences, differential execution against the upstream engine', 'DESIGN §3 C17')
+
 NOT_APPLICABLE = {
 }
 ALL = ['C%02d' % i for i in range(1, 21)]
@@ -118,6 +131,8 @@ ENGINES = [
  {'name': 'E-SQLDRV', 'path': 'harness/engines/sqldrv', 'serves_properties': ['C06','C07','C08','C09','C10','C11','C12','C13','C14','C15','C17'], 'kind_free_text': 'scripted database/sql driver behind the reader seams (statement log, scripted rows, faults, open-rows tracking) and in-process assembly of the real reader routes'},
  {'name': 'E-CHSQL', 'path': 'harness/engines/chsql', 'serves_properties': ['C07','C08','C09','C11','C13','C14','C16','C17'], 'kind_free_text': 'reference interpreter for the ClickHouse SQL subset the planners emit (oracle; self-tested against a corpus of captured statements)'},
  {'name': 'E-CHTCP', 'path': 'harness/engines/chtcp', 'serves_properties': ['C20'], 'kind_free_text': 'fake native-protocol ClickHouse TCP server (hello, ping, query log, INSERT exchange)'},
+ {'name': 'E-REF logq', 'path': 'harness/engines/logq', 'serves_properties': ['C07','C08','C09','C13','C14'], 'kind_free_text': 'abstract LogQL model, direct reference evaluator, query/database generators, executor running the real planner chain over E-CHSQL'},
+ {'name': 'E-LEX', 'path': 'harness/engines/lex', 'serves_properties': ['C10'], 'kind_free_text': 'ClickHouse token lexer and string/LIKE decoders (never fails on any byte string)'},
  {'name': 'gen', 'path': 'harness/engines/gen', 'serves_properties': ['C01','C02','C03','C04','C05','C06'], 'kind_free_text': 'ingest body generators (expected rows known by construction)'},
 ]
 if __name__ == '__main__':
